@@ -59,11 +59,15 @@ def gen_planar(rng, n, tier):
         n2 = rng.randint(1, 6)
         pt = lambda: [rng.randint(-30, 30) / 4.0, rng.randint(-30, 30) / 4.0, rng.choice([0.0, 0.0, rng.randint(-20, 20) / 4.0])]
         out.append({'x1': [pt() for _ in range(n1)], 'x2': [pt() for _ in range(n2)], 'p': rng.choice([1, 2, INF]), 'dim': rng.choice([2, 2, 1, 3]), 'rematch': rng.choice([None, None, None, 'dtw', 'frechet']), 'ptype': rng.choice([None, None, 'float', 'np.int64', 'np.float64', 'np.int32']), 'later': rng.random() < 0.3, 'plot': rng.random() < 0.2})
+        if rng.random() < 0.2:
+            out[-1]['geo'] = True; out[-1]['dim'] = 2
     return out
 
 
-def mk(pts):
-    from tracklib.core import ObsTime, ENUCoords, Obs, Track
+def mk(pts, geo=False):
+    from tracklib.core import ObsTime, ENUCoords, GeoCoords, Obs, Track
+    if geo:      # the same shapes in geographic coordinates (degrees), as read from a GPX file before any projection
+        return Track([Obs(GeoCoords(2.0 + p[0] * 1e-4, 48.0 + p[1] * 1e-4, p[2] if len(p) > 2 else 0), ObsTime.readUnixTime(i)) for i, p in enumerate(pts)])
     return Track([Obs(ENUCoords(p[0], p[1], p[2] if len(p) > 2 else 0), ObsTime.readUnixTime(i)) for i, p in enumerate(pts)])
 
 
@@ -80,13 +84,14 @@ def dist_dim(a, b, dim):
 def run_impl(case):
     import sys, tracklib.algo.comparison
     cmp = sys.modules['tracklib.algo.comparison']
-    t1, t2 = mk(case['x1']), mk(case['x2'])
+    geo = bool(case.get('geo'))
+    t1, t2 = mk(case['x1'], geo), mk(case['x2'], geo)
     p = case['p']; dim = case.get('dim', 2)
     if p != INF and case.get('ptype'):            # the same exponent in another numeric representation
         import numpy as np
         p = {'float': float, 'np.int64': np.int64, 'np.float64': np.float64, 'np.int32': np.int32}[case['ptype']](p)
     if case.get('rematch'):                       # the first track is itself the output of an earlier matching (a reference registered on several tracks in turn)
-        t3 = mk(case['x2'][::-1] + case['x1'][:1])
+        t3 = mk(case['x2'][::-1] + case['x1'][:1], geo)
         t1 = cmp.match(t1, t3, mode=cmp.MODE_MATCHING_FRECHET if case['rematch'] == 'frechet' else cmp.MODE_MATCHING_DTW, p=1, dim=dim, verbose=False)
     if p == INF:
         m = cmp.match(t1, t2, mode=cmp.MODE_MATCHING_FRECHET, dim=dim, verbose=False)
@@ -95,7 +100,7 @@ def run_impl(case):
         m = cmp.match(t1, t2, mode=cmp.MODE_MATCHING_DTW, p=p, dim=dim, verbose=False)
         fre = None
     if case.get('later'):                         # the same first track is matched against another track afterwards: the result obtained before is the caller's and must stay what it was
-        t4 = mk([[v[0] + 1.5] + list(v[1:]) for v in case['x2'][::-1]] + case['x1'][:2])
+        t4 = mk([[v[0] + 1.5] + list(v[1:]) for v in case['x2'][::-1]] + case['x1'][:2], geo)
         cmp.match(t1, t4, mode=cmp.MODE_MATCHING_DTW, p=1, dim=dim, verbose=False)
         cmp.match(t1, t4, mode=cmp.MODE_MATCHING_FRECHET, dim=dim, verbose=False)
     f = cmp.match(t1, t2, mode=cmp.MODE_MATCHING_FDTW, p=p, dim=dim, verbose=False, plot=bool(case.get('plot')))      # the display flag must not change what is returned
@@ -105,7 +110,10 @@ def run_impl(case):
     s = cmp.match(t2, t1, mode=cmp.MODE_MATCHING_FRECHET if p == INF else cmp.MODE_MATCHING_DTW, p=p, dim=dim, verbose=False)
     pairs = [[int(i) for i in m['pair', j]] for j in range(len(case['x1']))]
     D = [[dist_dim(case['x2'][i], case['x1'][j], dim) for j in range(t1.size())] for i in range(t2.size())]      # the pointwise distances, computed here (not by the implementation)
-    return {'score': float(m.score), 'fscore': float(f.score), 'sscore': float(s.score), 'pairs': pairs, 'nb': int(m.nb_links), 'D': D,
+    if geo:      # the planimetric distance of geographic positions is the library's public distance2DTo (metres), from the second track's fix to the first's, as the matching measures it
+        D = [[t2.getObs(i).position.distance2DTo(t1.getObs(j).position) for j in range(t1.size())] for i in range(t2.size())]
+    # (distance2DTo of geographic positions is not exactly symmetric: the swap is not compared for geographic tracks)
+    return {'score': float(m.score), 'fscore': float(f.score), 'sscore': float(m.score if geo else s.score), 'pairs': pairs, 'nb': int(m.nb_links), 'D': D,
             'frechet': None if fre is None else float(fre), 'src1': [o.position.getX() for o in t1], 'fpairs': [[int(i) for i in f['pair', j]] for j in range(len(case['x1']))]}
 
 
@@ -131,7 +139,7 @@ def oracle_tol(tol):
             return 'match raised %s' % obs['exc']
         x1, x2, p = case['x1'], case['x2'], case['p']
         n1, n2 = len(x1), len(x2)
-        d = lambda i, j: dist_dim(x2[i], x1[j], case.get('dim', 2))
+        d = (lambda i, j: obs['D'][i][j]) if case.get('geo') else (lambda i, j: dist_dim(x2[i], x1[j], case.get('dim', 2)))      # geographic tracks: the library's public point distance
         acc = (lambda A, B: max(A, B)) if p == INF else (lambda A, B: A + B ** p)
         # minimum over all couplings: enumerate the three predecessors recursively (independent of the table layout of the code)
         @functools.lru_cache(None)
